@@ -61,11 +61,12 @@ type cfg struct {
 	Strategy config.Strategy
 	Backends []string // templates as configured ($1 = first label of the virtual host)
 	Lat      int      // latency table index (lowest-latency only)
+	Pre      bool     // lowest-latency only: every backend already has a recorded latency
 	Host     string   // virtual host sent by the client
 }
 
 func (c cfg) name() string {
-	return fmt.Sprintf("bfs:%s|%s|lat%d|%q", c.Strategy, strings.Join(c.Backends, ","), c.Lat, c.Host)
+	return fmt.Sprintf("bfs:%s|%s|lat%d|pre=%v|%q", c.Strategy, strings.Join(c.Backends, ","), c.Lat, c.Pre, c.Host)
 }
 
 // substituted backend list as findRoute will see it ("$1" -> first label; the route is "*.x").
@@ -119,6 +120,13 @@ func newWorld(c cfg) *world {
 	w.list = c.list()
 	w.distinct = distinctCanon(w.list)
 	w.dupFree = len(w.distinct) == len(w.list)
+	if c.Pre {
+		for _, raw := range w.list {
+			l := latTables[c.Lat][indexOf(w.distinct, refCanon(raw))]
+			w.sm.RecordLatency(raw, l)
+			w.measured[refCanon(raw)] = l
+		}
+	}
 	return w
 }
 
@@ -375,6 +383,9 @@ func configs(thorough bool) []cfg {
 				}
 				for lt := 0; lt < lats; lt++ {
 					out = append(out, cfg{Strategy: st, Backends: l, Lat: lt, Host: h})
+					if st == config.StrategyLowestLatency && len(distinctCanon(l)) == len(l) {
+						out = append(out, cfg{Strategy: st, Backends: l, Lat: lt, Pre: true, Host: h})
+					}
 				}
 			}
 		}
@@ -420,19 +431,30 @@ func (m *monSource) Int63() int64    { m.enter(); m.n++; return m.n }
 func (m *monSource) Uint64() uint64  { m.enter(); m.n++; return uint64(m.n) }
 func (m *monSource) Seed(seed int64) {}
 
-type tally struct{ open, inTrack, inRel int }
+type tally struct {
+	open, inTrack, inRel int
+	perOpen, perBusy     map[string]int // per raw backend: open connections / calls in progress
+}
+
+func newTally() *tally { return &tally{perOpen: map[string]int{}, perBusy: map[string]int{}} }
 
 func trackBody(x *sched.X, sm *StrategyManager, t *tally, host, backend string) func() {
 	return func() {
 		t.inTrack++
+		t.perBusy[backend]++
 		rel := sm.TrackConnection(host, backend)
 		t.inTrack--
+		t.perBusy[backend]--
 		t.open++
+		t.perOpen[backend]++
 		sched.Point("conn-open", nil)
 		t.open--
+		t.perOpen[backend]--
 		t.inRel++
+		t.perBusy[backend]++
 		rel()
 		t.inRel--
+		t.perBusy[backend]--
 	}
 }
 
@@ -441,6 +463,15 @@ func trackOracle(x *sched.X, sm *StrategyManager, t *tally, backends ...string) 
 		n := int(sm.ActiveConnections())
 		if n < t.open || n > t.open+t.inTrack+t.inRel {
 			x.Fail("counters/active-connections-off", "ActiveConnections()=%d while %d connections are open (%d being opened, %d being closed)", n, t.open, t.inTrack, t.inRel)
+		}
+		for _, b := range backends {
+			var c int
+			if ctr := sm.getCounter(b); ctr != nil {
+				c = int(ctr.Load())
+			}
+			if c < t.perOpen[b] || c > t.perOpen[b]+t.perBusy[b] {
+				x.Fail("counters/per-backend-off", "least-connections counter of %s is %d while %d connections to it are open (%d calls in progress)", b, c, t.perOpen[b], t.perBusy[b])
+			}
 		}
 	})
 	x.AtEnd(func() {
@@ -465,19 +496,19 @@ func scenarios() []schedrun.Scenario {
 	lcRoute := &config.Route{Strategy: config.StrategyLeastConnections}
 	return []schedrun.Scenario{
 		{Name: "track-2-same-backend", Quick: 3, Thorough: 5, Body: func(x *sched.X) {
-			sm, t := NewStrategyManager(), &tally{}
+			sm, t := NewStrategyManager(), newTally()
 			x.Go("c1", trackBody(x, sm, t, "h.x", "a:1"))
 			x.Go("c2", trackBody(x, sm, t, "H.x", "a:1"))
 			trackOracle(x, sm, t, "a:1")
 		}},
 		{Name: "track-2-spellings", Quick: 3, Thorough: 5, Body: func(x *sched.X) {
-			sm, t := NewStrategyManager(), &tally{}
+			sm, t := NewStrategyManager(), newTally()
 			x.Go("c1", trackBody(x, sm, t, "h.x", "a"))
 			x.Go("c2", trackBody(x, sm, t, "h.x", "A:25565"))
 			trackOracle(x, sm, t, "a", "A:25565")
 		}},
 		{Name: "track-3", Quick: 2, Thorough: 3, Body: func(x *sched.X) {
-			sm, t := NewStrategyManager(), &tally{}
+			sm, t := NewStrategyManager(), newTally()
 			x.Go("c1", trackBody(x, sm, t, "h.x", "a:1"))
 			x.Go("c2", trackBody(x, sm, t, "h.x", "a:1"))
 			x.Go("c3", trackBody(x, sm, t, "h.x", "b:1"))
@@ -486,13 +517,13 @@ func scenarios() []schedrun.Scenario {
 		{Name: "track-twice-each", Quick: 2, Thorough: 4, Body: func(x *sched.X) {
 			// a counter that drops to zero is deleted and re-created: the second connection of one
 			// thread races with the release of the other
-			sm, t := NewStrategyManager(), &tally{}
+			sm, t := NewStrategyManager(), newTally()
 			x.Go("c1", func() { trackBody(x, sm, t, "h.x", "a:1")(); trackBody(x, sm, t, "h.x", "a:1")() })
 			x.Go("c2", func() { trackBody(x, sm, t, "h.x", "a:1")(); trackBody(x, sm, t, "h.x", "a:1")() })
 			trackOracle(x, sm, t, "a:1")
 		}},
 		{Name: "least-connections-vs-track", Quick: 3, Thorough: 6, Body: func(x *sched.X) {
-			sm, t := NewStrategyManager(), &tally{}
+			sm, t := NewStrategyManager(), newTally()
 			var pick string
 			x.Go("c1", trackBody(x, sm, t, "h.x", "a:1"))
 			x.Go("sel", func() { pick, _, _ = sm.GetNextBackend(logr.Discard(), lcRoute, "h.x", []string{"a:1", "b:1"}) })
